@@ -6,7 +6,8 @@ for f in glob.glob('/tmp/confirm/batch*.txt'):
     for l in open(f):
         m = re.match(r'RESULT (\S+) (.*)', l.strip())
         if m:
-            results[m.group(1)] = m.group(2)
+            if 'suite=same' in m.group(2) or m.group(1) not in results:
+                results[m.group(1)] = m.group(2)
 for sid in sys.argv[1:]:
     src = f'/tmp/seeded/{sid}'
     dst = f'/verif/seeded/{sid}'
